@@ -22,7 +22,7 @@ func (l localOptimizer) run(method localMethod, gradThresh float64, operation ch
 	task := tasks[0]
 	task = l.initialLocation(operation, result, task, method)
 	if task.Op == PostIteration {
-		l.finish(operation, result)
+		l.finishInitial(operation, result)
 		return NotTerminated, nil
 	}
 	status, err := l.checkStartingLocation(task, gradThresh)
@@ -130,6 +130,19 @@ func (localOptimizer) checkGradientConvergence(gradient []float64, gradThresh fl
 func (localOptimizer) finish(operation chan<- Task, result <-chan Task) {
 	// Guarantee that result is closed before operation is closed.
 	for range result {
+	}
+}
+
+// finishInitial completes an optimization that was stopped while the initial
+// location was being evaluated. The evaluated initial location is still
+// announced as a MajorIteration, so that the Result is a point at which the
+// objective function was evaluated rather than the zero placeholder.
+func (localOptimizer) finishInitial(operation chan<- Task, result <-chan Task) {
+	for task := range result {
+		if task.Op.isEvaluation() {
+			task.Op = MajorIteration
+			operation <- task
+		}
 	}
 }
 
